@@ -20,6 +20,8 @@ func checkC02(p *Prog, r *Report) {
 	c02Writers(p, r)
 	c02Denit(p, r)
 	c02SourceDefined(p, r)
+	mineralBooks(p, r, "C02.R9")
+	nmoveSweeps(p, r, "C02.R10")
 }
 
 func walkedOpaque(p *Prog, key string, opaque ...string) *Exec {
